@@ -1,7 +1,7 @@
 # Parsing of op files and observation files; facets (what a property's projection subscribes to).
 from common import unhex, pb_parse, pb_get, pb_all, pb_coin
 
-NON_STEP = ("cfg", "tx_begin", "tx_commit", "tx_abort", "#")
+NON_STEP = ("cfg", "tx_begin", "tx_commit", "tx_abort", "#", "setver", "tx_begin_m", "tx_abort_m")
 
 
 def split_histories(text):
@@ -53,6 +53,8 @@ def facet(line):
         return "st.cfg"
     if k.startswith("q."):
         return "q"
+    if k.startswith("mg.cfg."):
+        return k
     return k
 
 
@@ -177,6 +179,8 @@ def parse_history(op_lines, obs_lines):
             continue
         if t[0] == "#":
             note = t[1:]; continue
+        if t[0] == "setver":
+            note = ["setver", t[1], t[2]]; continue
         if t[0] == "tx_begin":
             intx = True; txsteps = []; working = committed; txid += 1; continue
         if t[0] == "tx_commit":
@@ -189,7 +193,7 @@ def parse_history(op_lines, obs_lines):
             for s in txsteps:
                 s.aborted = True; s.after = committed
             continue
-        if t[0].startswith("#") or t[0] == "cfg":
+        if t[0].startswith("#") or t[0] in ("cfg", "setver", "tx_begin_m", "tx_abort_m"):
             continue
         idx += 1
         s = Step(); s.idx = idx; s.op = l; s.optoks = t; s.intx = intx; s.note = note; note = None; s.tx = txid if intx else 0
